@@ -1297,6 +1297,8 @@ int32_t jls_core_repair_fsr(struct jls_core_s * self, uint16_t signal_id) {
 
     struct jls_core_fsr_level_s * lvl = NULL;
     bool skip_summary = false;
+    int64_t sample_id_expect = 0;       // the next sample_id that is not covered by a stored level-1 summary
+    bool sample_id_expect_valid = false;
 
     while (level > 0) {
         JLS_LOGI("repair_fsr signal_id %d, level %d, offset %" PRIi64, (int) signal_id, (int) level, offset);
@@ -1308,6 +1310,9 @@ int32_t jls_core_repair_fsr(struct jls_core_s * self, uint16_t signal_id) {
         lvl = signal_info->track_fsr->level[level];
 
         if (jls_core_rd_chunk(self)) {  // read index
+            lvl->index->header.entry_count = 0;
+            lvl->summary->header.entry_count = 0;
+            offset = 0;
             break;
         }
         index_head = self->chunk_cur;
@@ -1318,6 +1323,9 @@ int32_t jls_core_repair_fsr(struct jls_core_s * self, uint16_t signal_id) {
         memcpy(lvl->index, self->buf->start, self->chunk_cur.hdr.payload_length);
 
         if (jls_core_rd_chunk(self)) {  // read summary
+            lvl->index->header.entry_count = 0;
+            lvl->summary->header.entry_count = 0;
+            offset = 0;
             break;
         }
         if (self->chunk_cur.hdr.payload_length > (sizeof(struct jls_payload_header_s)
@@ -1352,12 +1360,32 @@ int32_t jls_core_repair_fsr(struct jls_core_s * self, uint16_t signal_id) {
         } else {
             skip_summary = true;
             --level;
-            if (r->header.entry_count > 0) {
+            if ((r->header.entry_count > 0) && (0 == level)) {
+                // level 1 -> data.  Entries of omitted blocks are 0, so continue with the data chunks
+                // that follow the summarized range, starting the search at the last stored block.
+                sample_id_expect = r->header.timestamp
+                        + ((int64_t) r->header.entry_count) * signal_info->signal_def.samples_per_data;
+                sample_id_expect_valid = true;
+                skip_summary = false;
+                offset = 0;
+                for (uint32_t k = r->header.entry_count; k > 0; --k) {
+                    if (r->offsets[k - 1]) {
+                        offset = r->offsets[k - 1];
+                        break;
+                    }
+                }
+                if (!offset) {
+                    offset = offsets[0];
+                }
+                lvl->index->header.entry_count = 0;
+                lvl->summary->header.entry_count = 0;
+            } else if (r->header.entry_count > 0) {
                 offset = r->offsets[r->header.entry_count - 1];
                 lvl->index->header.entry_count = 0;
                 lvl->summary->header.entry_count = 0;
                 if (0 != jls_raw_chunk_seek(self->raw, offset)) {
                     JLS_LOGE("Could not seek to lower-level index.  Cannot repair.");
+                    offset = 0;
                     break;
                 }
             } else {
@@ -1369,14 +1397,16 @@ int32_t jls_core_repair_fsr(struct jls_core_s * self, uint16_t signal_id) {
 
     // update level 0 (data)
     jls_core_fsr_sample_buffer_alloc(signal_info->track_fsr);
-    int64_t sample_id_expect = 0;
-    bool sample_id_expect_valid = false;
     while (offset) {
         if (jls_raw_chunk_seek(self->raw, offset) || jls_core_rd_chunk(self)) {
             break;
         }
         if (self->buf->length >= sizeof(struct jls_payload_header_s)) {
             struct jls_payload_header_s * dh = (struct jls_payload_header_s *) self->buf->start;
+            if (sample_id_expect_valid && (dh->timestamp < sample_id_expect)) {
+                offset = self->chunk_cur.hdr.item_next;  // already summarized
+                continue;
+            }
             if (sample_id_expect_valid && (dh->timestamp != sample_id_expect)) {
                 // blocks were omitted here and their summaries were never written: the level-1 index
                 // cannot describe what follows, so the signal ends at the last contiguous block
